@@ -100,6 +100,12 @@ Lemma K_sob_grad_target_fresh v : sob_grad_target_fresh v = v. Proof. reflexivit
 Lemma K_sob_grad_case2 {T} (N : Num T) sgrad b : sob_grad_case2 N sgrad b = ndiv N sgrad b.
 Proof. reflexivity. Qed.
 
+(* round 4 pins: change_shg_mgr of the weights service re-creates both members
+   derived from the sources; get_ratio fills a freshly allocated array *)
+Lemma K_svc_change_recreates_recarrays v : svc_change_recreates_recarrays v = v. Proof. reflexivity. Qed.
+Lemma K_svc_change_recreates_weights v : svc_change_recreates_weights v = v. Proof. reflexivity. Qed.
+Lemma K_sob_ratio_target_fresh v : sob_ratio_target_fresh v = v. Proof. reflexivity. Qed.
+
 (* DataField memo of a global-fit-parameter dependent field *)
 Lemma K_gfp_initial_value : gfp_initial_value = None.
 Proof. reflexivity. Qed.
